@@ -389,7 +389,7 @@ struct OBJ {
 	std::vector<char *> const_keys; // stable storage for CONSTANT_KEY adds
 	std::string trace;
 	uint64_t h = 0;
-	bool f_del_then_insert = false, f_deleted = false, f_grew = false, f_iter_delete = false, f_const = false;
+	bool f_del_then_insert = false, f_deleted = false, f_grew = false, f_iter_delete = false, f_const = false, f_visit_delete = false;
 	OBJ(Ctx &c) : ctx(c) { o = json_object_new_object(); }
 	void log(const std::string &s)
 	{
@@ -582,6 +582,54 @@ struct OBJ {
 		f_iter_delete = true;
 		full_check();
 	}
+	// the same through the visitor: the callback deletes the member it is being shown (and returns SKIP, so the
+	// traversal does not touch the deleted value); the remaining members are still all visited, in order
+	struct VDel {
+		OBJ *self;
+		unsigned stride;
+		size_t i = 0;
+		std::vector<std::string> seen, deleted;
+	};
+	static int visit_delete_cb(json_object *, int flags, json_object *parent, const char *key, size_t *, void *arg)
+	{
+		VDel *v = (VDel *)arg;
+		if (!parent || !key || flags == JSON_C_VISIT_SECOND)
+			return JSON_C_VISIT_RETURN_CONTINUE;
+		std::string k = key;
+		v->seen.push_back(k);
+		bool del = v->i % v->stride == 0;
+		v->i++;
+		if (del)
+		{
+			json_object_object_del(parent, key);
+			v->deleted.push_back(k);
+			return JSON_C_VISIT_RETURN_SKIP;
+		}
+		return JSON_C_VISIT_RETURN_CONTINUE;
+	}
+	void visit_and_delete(Choices &c)
+	{
+		std::vector<std::pair<std::string, json_object *>> before = m;
+		VDel v;
+		v.self = this;
+		v.stride = 1 + (unsigned)c.pickn(3);
+		int rc = json_c_visit(o, 0, visit_delete_cb, &v);
+		log("visitor deleting every " + str(v.stride) + ". member");
+		if (rc != 0)
+			ctx.fail("iterate-delete", "json_c_visit returned " + str(rc));
+		if (v.seen.size() != before.size())
+			ctx.fail("iterate-delete", "visitor with deletion of the current member visited " + str(v.seen.size()) + " of " + str(before.size()) + " members");
+		for (size_t j = 0; j < before.size(); j++)
+			if (v.seen[j] != before[j].first)
+				ctx.fail("iterate-delete", "visitor with deletion visited " + quote(v.seen[j], 30) + " at position " + str(j) + " instead of " + quote(before[j].first, 30));
+		for (auto &k : v.deleted)
+		{
+			m.erase(m.begin() + find(k));
+			f_deleted = true;
+		}
+		f_iter_delete = f_visit_delete = true;
+		full_check();
+	}
 	void finish()
 	{
 		full_check();
@@ -668,7 +716,12 @@ static void run_obj(Choices &c, Ctx &ctx)
 		case 2: ob.full_check(); break;
 		default:
 			if (!many)
-				ob.iterate_and_delete(c);
+			{
+				if (c.coin(40))
+					ob.visit_and_delete(c);
+				else
+					ob.iterate_and_delete(c);
+			}
 			break;
 		}
 	}
@@ -680,6 +733,8 @@ static void run_obj(Choices &c, Ctx &ctx)
 		ctx.label("insert_after_delete");
 	if (ob.f_iter_delete)
 		ctx.label("delete_during_foreach");
+	if (ob.f_visit_delete)
+		ctx.label("delete_during_visit");
 	if (ob.f_const)
 		ctx.label("constant_key");
 	ctx.label(hashsel == JSON_C_STR_HASH_PERLLIKE ? "hash_perllike" : "hash_default");
